@@ -60,6 +60,11 @@ def strategy_(draw):
     sp = draw(gen.base_ocp(horizons=("num", "free"), table_kw={"shapes": [(1, 1), (1, 1), (2, 1), (3, 1)], "max_params": 1}, alg_odds=(1, 2)))
     m = sp["method"]
     N = m["N"]
+    if sp.get("algebraics") and draw(st.booleans()):
+        # a vector-valued algebraic variable declared before the scalar one: guesses address rows of the stacked algebraic vector
+        xl = gen.leaves_of([d for d in sp["states"] if not d.get("quad")])[0]
+        sp["algebraics"].insert(0, {"name": "zv", "rows": 2, "cols": 1})
+        sp["alg"].insert(0, [["-", E.S("zv", 0), xl], ["-", E.S("zv", 1), ["*", E.C(0.5), xl]]])
     if draw(st.integers(0, 2)) == 0:
         for d in sp["states"] + sp["controls"] + sp["vars"]:
             if draw(st.booleans()):
@@ -73,7 +78,8 @@ def strategy_(draw):
     for d in sp["vars"]:
         targets.append((d, {"": "global", "control": "interval", "control+": "node"}[d.get("grid", "")]))
     for d in sp.get("algebraics", []):
-        targets.append((d, "alg"))
+        if d["rows"] == 1:
+            targets.append((d, "alg"))
     ops = []
     for _ in range(draw(st.integers(1, 5))):
         r = draw(st.integers(0, 11))
@@ -92,7 +98,7 @@ def strategy_(draw):
         ops.append({"sym": d["name"], "guess": g, "phase": draw(st.sampled_from(["before", "before", "after"]))})
     if sp.get("algebraics") and draw(st.booleans()):
         # a time-varying guess for the algebraic variable: every collocation point of every integrator step has its own time
-        ops.insert(draw(st.integers(0, len(ops))), {"sym": sp["algebraics"][0]["name"], "phase": draw(st.sampled_from(["before", "after"])),
+        ops.insert(draw(st.integers(0, len(ops))), {"sym": sp["algebraics"][-1]["name"], "phase": draw(st.sampled_from(["before", "after"])),
                                                     "guess": {"form": "expr", "value": [["+", ["*", E.C(draw(gen.small())), ["sin", ["t"]]], ["*", E.C(draw(gen.small())), ["t"]]]]}})
     return {"spec": sp, "ops": ops, "rng": draw(st.integers(0, 2**31 - 1))}
 
